@@ -30,6 +30,13 @@ class ExprMixin:
         if m is None:
             raise Unsupported("expression %s at line %s" % (type(node).__name__, getattr(node, 'lineno', '?')))
         self.note('node', type(node).__name__)
+        if self.cur is not None and self.cur[0].expr_rules and not isinstance(node, (ast.Name, ast.Constant)):
+            r = self.cur[0].expr_rules.get(ast.unparse(node))
+            if r is not None:
+                self.note('rule', (getattr(node, 'lineno', 0), ast.unparse(node)[:70], 'expression rule: ' + str(r)))
+                kind, _, t = r.partition(':')
+                from .vals import parse_type
+                return k(st, fresh_val(parse_type(t), 'expr', st))
         return m(node, st, k)
 
     def ev_list(self, nodes, st, k, acc=()):
@@ -75,7 +82,12 @@ class ExprMixin:
         raise Unsupported("constant %r" % (v,))
 
     def ev_Name(self, node, st, k):
-        return k(st, self.load_name(node.id, st))
+        v = self.load_name(node.id, st)
+        if v is None:
+            if self.spec:
+                raise ContractError("unknown name %r in a specification" % node.id)
+            return self.raise_(st, 'NameError')
+        return k(st, v)
 
     def load_name(self, name, st):
         v = st.lookup(name)
@@ -107,7 +119,10 @@ class ExprMixin:
                     for a in ch.names:
                         if (a.asname or a.name.split('.')[0]) == name:
                             return VClass(name)
-        return VClass(name)     # builtin or unknown global: resolved (or rejected) at the call
+        import builtins
+        if hasattr(builtins, name) or name in self.known_modules:
+            return VClass(name)     # builtin: resolved (or rejected) at the call
+        return None
 
     def const_val(self, c, st):
         if isinstance(c, bool):
